@@ -95,7 +95,7 @@ def generate(seed, tier):
         for _ in range(6):
             ops.append({'op': 't_read', 'n': 65536, 'timeout': 2.5})
         for _ in range(g.int(0, 3)):
-            ops.append({'op': 't_write', 'content': {'seed': g.int(0, 99), 'size': g.pick([1, 24, 512, 20000]), 'alpha': 'bin'}, 'timeout': g.pick([None, 0.5, 2.0, 0.0015])})
+            ops.append({'op': 't_write', 'content': {'seed': g.int(0, 99), 'size': g.pick([1, 24, 512, 20000]), 'alpha': 'bin'}, 'timeout': g.pick([None, 0.5, 2.0, 0.0015, 0])})      # 0 = libusb's "no timeout", not "use the default"
         ops.append({'op': 't_close'})
         if g.chance(0.7):
             ops.append({'op': 't_close'})
